@@ -306,6 +306,8 @@ func vplantInput(r *vrand, id string, docs []vdoc) vinput {
 func vgenInputs(r *vrand, nExact, nEdit, nScen, nMal int) []vinput {
 	vloadFiles()
 	var out []vinput
+	var outInputs []vinput
+	defer func() {}()
 	for i, d := range vpick(r.fork(1), nExact) {
 		out = append(out, vplantInput(r.fork(uint64(100+i)), fmt.Sprintf("p%d", i), []vdoc{d}))
 	}
@@ -321,13 +323,114 @@ func vgenInputs(r *vrand, nExact, nEdit, nScen, nMal int) []vinput {
 		}
 		out = append(out, vinput{id: fmt.Sprintf("e%d", i), data: data})
 	}
+	// transposed passages: K = A G U Y, input = A' U G' — the diff then ends in change blocks whose
+	// deleted and inserted parts differ in length (crossing alignments)
+	for i, d := range vpick(r.fork(3), nEdit/2+1) {
+		rr := r.fork(uint64(250 + i))
+		lines := strings.Split(strings.TrimRight(string(d.data), "\n"), "\n")
+		n := len(lines)
+		if n < 9 {
+			continue
+		}
+		a, b := n*2/3, n*5/6
+		var out []string
+		out = append(out, lines[:a-1-rr.intn(2)]...)
+		out = append(out, lines[b:]...)
+		out = append(out, lines[a:b]...)
+		last := strings.Fields(out[len(out)-1])
+		if len(last) > 2 {
+			out[len(out)-1] = strings.Join(last[:len(last)-1-rr.intn(2)], " ")
+		}
+		if i%2 == 1 { // also at the start: drop the first words so the diff begins with a change block
+			first := strings.Fields(out[0])
+			if len(first) > 2 {
+				out[0] = voovWords[rr.intn(len(voovWords))] + " " + strings.Join(first[1+rr.intn(2):], " ")
+			}
+		}
+		out = append(out, "")
+		data := strings.Join(out, "\n")
+		out2 := vinput{id: fmt.Sprintf("x%d", i), data: []byte(data)}
+		_ = out2
+		outInputs = append(outInputs, out2)
+	}
+	// word-level crossing alignment: K = A G U Y, input = A[:-k] U G (|Y| 1-2, |U| 8-12, |G| 4-8)
+	for i, d := range vpick(r.fork(4), nEdit/2+1) {
+		rr := r.fork(uint64(270 + i))
+		ws := strings.Fields(string(d.data))
+		n := len(ws)
+		if n < 110 {
+			continue
+		}
+		y, u, g, k := 1+rr.intn(2), 8+rr.intn(5), 4+rr.intn(5), 6+rr.intn(4)
+		A := ws[:n-g-u-y]
+		G := ws[n-g-u-y : n-u-y]
+		U := ws[n-u-y : n-y]
+		var w []string
+		w = append(w, A[:len(A)-k]...)
+		w = append(w, U...)
+		w = append(w, G...)
+		var sb strings.Builder
+		for j, x := range w {
+			sb.WriteString(x)
+			if j%11 == 10 {
+				sb.WriteByte('\n')
+			} else {
+				sb.WriteByte(' ')
+			}
+		}
+		outInputs = append(outInputs, vinput{id: fmt.Sprintf("y%d", i), data: []byte(sb.String())})
+	}
+	// inputs that walk the veto paths of scoreDiffs: a license of a family named in inducedPhrases
+	// with the family's phrase removed; a changed version number; "lesser"/"library" swapped
+	vetoes := [][2]string{{"AGPL", "affero"}, {"Apache", "apache"}, {"BSD", "bsd"}, {"BSD-3-Clause-Attribution", "acknowledgment"},
+		{"bzip2", "seward"}, {"LGPL-2.0", "library"}, {"ImageMagick", "imagemagick"}, {"PHP", "php"}, {"SGI-B", "silicon graphics"},
+		{"X11", "x consortium"}, {"Atmel", "atmel"}, {"SunPro", "sunpro"}, {"SISSL", "sun standards"}}
+	nv := 0
+	for vi, v := range vetoes {
+		if !vthorough() && vi%4 != int(vseed()%4) && v[0] != "BSD-3-Clause-Attribution" {
+			continue
+		}
+		for _, d := range vcorpus {
+			if !strings.HasPrefix(d.name, v[0]) || len(d.data) > 20000 || nv > 40 {
+				continue
+			}
+			low := strings.ToLower(string(d.data))
+			if !strings.Contains(low, v[1]) {
+				continue
+			}
+			// remove every occurrence of the phrase (case-insensitively), keeping the rest byte for byte
+			var sb strings.Builder
+			src := string(d.data)
+			for {
+				k := strings.Index(strings.ToLower(src), v[1])
+				if k < 0 {
+					sb.WriteString(src)
+					break
+				}
+				sb.WriteString(src[:k])
+				src = src[k+len(v[1]):]
+			}
+			outInputs = append(outInputs, vinput{id: fmt.Sprintf("v%d_%s", vi, d.name), data: []byte(sb.String())})
+			nv++
+			break
+		}
+	}
+	for i, d := range vnamed("License/GPL-2.0/a.txt", "License/LGPL-2.1/a.txt", "License/Apache-2.0/pristine.txt", "License/LGPL-3.0/license.txt", "Header/GPL-3.0/header.txt") {
+		if !vthorough() && i%2 != int(vseed()%2) {
+			continue
+		}
+		t := string(d.data)
+		outInputs = append(outInputs,
+			vinput{id: fmt.Sprintf("ver%d", i), data: []byte(strings.Replace(strings.Replace(t, "Version 2", "Version 7", 1), "version 2", "version 7", 1))},
+			vinput{id: fmt.Sprintf("les%d", i), data: []byte(strings.Replace(strings.Replace(t, "Lesser", "Library", 2), "GNU General", "GNU Lesser General", 1))})
+	}
 	for i := 0; i < nScen && i < len(vscen); i++ {
 		out = append(out, vinput{id: fmt.Sprintf("s%d", i), data: vscen[(i+int(vseed()))%len(vscen)].data})
 	}
 	for i := 0; i < nMal; i++ {
 		out = append(out, vinput{id: fmt.Sprintf("m%d", i), data: vmalformed(r.fork(uint64(300+i)), i)})
 	}
-	return out
+	return append(out, outInputs...)
 }
 
 // TestVerifMatch: end-to-end correspondence of S2–S6 on the full corpus at 0.8, plus the
@@ -354,5 +457,70 @@ func TestVerifMatch(t *testing.T) {
 		o.verdict("C02", in.id, w == "", nontriv, "conf:"+vhash(in.data), map[string]interface{}{"what": w, "matches": len(info.res.Matches), "input_hex": vclip(hx(in.data))})
 		n++
 	}
+	n += vtinyCorpora(o, r)
 	o.stat("match", map[string]interface{}{"match_cases": n})
+}
+
+// vtinyCorpora: small synthetic corpora (documents of 0..12 words, empty category / variant
+// strings as the repository's own tests use, documents that are prefixes of each other) at several
+// thresholds, matched against inputs that put a document at the very start, at the very end, alone,
+// twice, truncated — the boundary conditions of q clamping, window sliding and range fusion.
+func vtinyCorpora(o *vout, r *vrand) int {
+	words := []string{"alpha", "bravo", "charlie", "delta", "echo", "foxtrot", "golf", "hotel", "india", "juliet", "kilo", "lima", "mike"}
+	mk := func(from, n int) string { return strings.Join(words[from:from+n], " ") }
+	type td struct{ cat, name, variant, text string }
+	docs := []td{
+		{"License", "Tiny4", "a.txt", mk(0, 4)}, {"License", "Tiny9", "", mk(2, 9)}, {"", "known", "", mk(1, 6)},
+		{"License", "Tiny1", "x", mk(12, 1)}, {"License", "Tiny12", "v.txt", mk(0, 12)}, {"License", "Empty", "e", ""},
+		{"Header", "Tiny5", "h.txt", mk(7, 5)}, {"License", "Rep", "r", "alpha alpha alpha alpha alpha bravo alpha alpha"},
+	}
+	ths := []float64{0.8, 0.9, 0.5, 0.67}
+	if vthorough() {
+		ths = append(ths, 0.7, 1.0, 0.95, 0.3)
+	}
+	n := 0
+	for ti, th := range ths {
+		c := NewClassifier(th)
+		for _, d := range docs {
+			c.AddContent(d.cat, d.name, d.variant, []byte(d.text))
+		}
+		cid := fmt.Sprintf("tiny%d", ti)
+		keys := vcorpusRecord(o, cid, c)
+		var inputs []string
+		for _, d := range docs {
+			if d.text == "" {
+				continue
+			}
+			inputs = append(inputs, d.text, "zyxqv qwrtzp blorfen "+d.text, d.text+" zyxqv qwrtzp", "zyxqv "+d.text+" qwrtzp blorfen xkcdq",
+				d.text+"\n"+d.text, "zyxqv\n"+d.text+"\n")
+			ws := strings.Fields(d.text)
+			if len(ws) > 2 {
+				inputs = append(inputs, strings.Join(ws[:len(ws)-1], " "), strings.Join(ws[1:], " "), "zyxqv "+strings.Join(ws[:len(ws)-1], " "))
+			}
+		}
+		inputs = append(inputs, docs[0].text+" "+docs[6].text, docs[1].text+"\n"+docs[0].text, "", "zyxqv", mk(0, 13))
+		for k := 0; k < 10; k++ {
+			rr := r.fork(uint64(9000 + ti*100 + k))
+			var ws []string
+			for j := 0; j < 1+rr.intn(16); j++ {
+				ws = append(ws, words[rr.intn(len(words))])
+			}
+			inputs = append(inputs, strings.Join(ws, " "))
+		}
+		for ii, in := range inputs {
+			id := fmt.Sprintf("%s_%d", cid, ii)
+			info := vmatchCase(o, c, cid, keys, id, []byte(in), true)
+			n++
+			if info.panicked {
+				continue
+			}
+			if th > 0 {
+				w := voracleC03(c, info)
+				o.verdict("C03", id, w == "", len(info.res.Matches) > 0, fmt.Sprintf("tiny:%v:%s", th, in), map[string]interface{}{"what": w, "threshold": th, "input": in})
+			}
+			w := voracleC02(c, info)
+			o.verdict("C02", id, w == "", len(info.res.Matches) > 0, fmt.Sprintf("tiny:%v:%s", th, in), map[string]interface{}{"what": w, "threshold": th, "input": in})
+		}
+	}
+	return n
 }
